@@ -267,6 +267,16 @@ func (it IntT) add(k intKind, a, b Sx) Sx {
 }
 // addNW: addition of quantities known not to overflow (slice offsets and lengths are bounded by
 // 2^40 by the well-formedness facts of every slice value), so no wrap in the int encoding.
+func (it IntT) subNW(a, b Sx) Sx {
+	if it.mode == ModeBV {
+		return it.sub(I64, a, b)
+	}
+	if b == "0" {
+		return a
+	}
+	return sx("-", a, b)
+}
+
 func (it IntT) addNW(a, b Sx) Sx {
 	if it.mode == ModeBV {
 		return it.add(I64, a, b)
